@@ -24,7 +24,7 @@ for d in sorted(glob.glob(os.path.join(VERIF, 'seeded', '*', 'patch.diff'))):
     lines = p.stdout.splitlines()
     out[sid] = dict(property=prop, exit=p.returncode, seconds=round(time.time() - t0, 1),
                     violations=[l for l in lines if l.startswith('VIOLATION')][:4],
-                    undecided=[l for l in lines if l.startswith('UNDECIDED')][:6],
+                    undecided=[l for l in lines if l.startswith(('UNDECIDED', 'REFUTED'))][:6],
                     checker_error=[l for l in lines if l.startswith('CHECKER')][:2],
                     summary=lines[-1] if lines else p.stderr[-300:])
     print(sid, prop, 'exit', p.returncode, len(out[sid]['violations']), 'violation lines;', len(out[sid]['undecided']), 'undecided', flush=True)
